@@ -971,6 +971,28 @@ class CallMixin(ExprMixin):
         if cm.nargs is not None and len(args) != cm.nargs:
             raise Unsupported("call model %s is written for %d positional argument(s), the call has %d (line %s)" % (
                 cm.pattern, cm.nargs, len(args), node.lineno))
+        if getattr(cm, "permutes", None) is not None:
+            a = args[cm.permutes]
+            if not isinstance(a.ty, List) or a.lv is None:
+                raise Unsupported("call model %s permutes argument %d, which is not a list variable (line %s)" % (
+                    cm.pattern, cm.permutes, node.lineno))
+            # same length; every new position holds some old element and every old element sits at some new position
+            r = self.fresh(a.ty, "perm")
+            n = self.__dict__["_perm_n"] = self.__dict__.get("_perm_n", 0) + 1
+            ln = T.list_len(a)
+            st.assume(T.list_len(r) == ln)
+            k = z3.FreshConst(INT.sort(), "kp")
+            src = z3.Function("perm_src%d" % n, INT.sort(), INT.sort())
+            dst = z3.Function("perm_dst%d" % n, INT.sort(), INT.sort())
+            zero = T.intval(0).t
+            inr = z3.And(zero <= k, k < ln)
+            st.assume(z3.ForAll([k], z3.Implies(inr, z3.And(zero <= src(k), src(k) < ln,
+                                                            z3.Select(T.list_arr(r), k) == z3.Select(T.list_arr(a), src(k)))),
+                                patterns=[z3.Select(T.list_arr(r), k)]))
+            st.assume(z3.ForAll([k], z3.Implies(inr, z3.And(zero <= dst(k), dst(k) < ln,
+                                                            z3.Select(T.list_arr(r), dst(k)) == z3.Select(T.list_arr(a), k))),
+                                patterns=[z3.Select(T.list_arr(a), k)]))
+            self.write_lv(st, a.lv, r)
         env = {"self_": recv} if recv is not None else {}
         for i, a in enumerate(args):
             env["a%d" % i] = a
